@@ -192,6 +192,22 @@ CHECKS.append({
             "decomposition error), half-light for non-integer 2n, the reduction of enclosed light to P(2n,b_n); these are covered by the search oracle only.",
 })
 
+CHECKS.append({
+    "property_id": "C20",
+    "design_ref": "DESIGN.md 5 (C20)",
+    "technique": "Coq proof: integer/slice reasoning (lia) on box bounds regenerated from PixelRenderer, list lemmas on the hybrid index sets, and a "
+                 "vm_compute certificate over Q for the Gauss-Legendre table dumped from the running implementation; vm_compute correspondence of "
+                 "exact per-pixel class maps and index sets; implementation-side image oracle",
+    "text": "Eight theorems (Props/C20.v): for EVERY N>=0 and 0<=os<=N/2 the box-integrated pixels are exactly rows/columns [N/2-os, N/2+os) (odd and even "
+            "N), none for os=0; for every sub-sampling order 1..16 the rule in use has positive weights summing to 1, antisymmetric in-pixel nodes and "
+            "integrates x^k exactly for k<=2m-1; for every num_pixel_render<=n_sigma the index sets partition the components (real-space = largest) "
+            "and with 0 the hybrid renderer evaluates exactly the Fourier expression.  Class maps of real renderers (every pixel, measured with a "
+            "quadratic marker profile) are proved equal to the model's for all small (N, os).",
+    "note": "Trusted: Coq kernel + vm_compute; translator units PixelBox/Amps and the run-time dump of leggauss; numpy slicing/.at[].set via PySlice "
+            "(exercised); quadrature error for the Sersic integrand, n_sigma convergence and interp on/off are numerical claims left to the "
+            "implementation oracle (2e-5 / 6e-3 / 5e-3 of the property text).",
+})
+
 _PENDING = "check not built yet in this session (build order in DESIGN.md section 9); will be claimed once its Coq model, theorems and tie exist"
 NOT_APPLICABLE = [
     {"property_id": "C%02d" % i, "reason": _PENDING}
